@@ -221,7 +221,9 @@ impl<Deco: Decoration> fmt::Display for WithContext<'_, Posting<'_, Deco>> {
             let balance_padding = if post.amount.is_some() {
                 0
             } else {
-                get_column(50 + trailing, account_width, 2)
+                // " =" is right-aligned inside this padding and takes one space of it,
+                // so 3 columns are needed to keep two spaces after the account.
+                get_column(50 + trailing, account_width, 3)
             };
             write!(
                 f,
@@ -562,6 +564,18 @@ mod tests {
                 DisplayContext::default().as_display(&noamount),
                 DisplayContext::default().as_display(&zerobalance),
             ),
+        );
+
+        // A long account is still separated from the balance by two spaces,
+        // otherwise " = 0" would be read back as a part of the account name.
+        let longaccount = plain::Posting {
+            amount: None,
+            balance: Some(amount(0, "")),
+            ..Posting::new_untracked("Assets:Long:Long:Long:Long:Long:Long:Long:Long:Long")
+        };
+        assert_eq!(
+            "    Assets:Long:Long:Long:Long:Long:Long:Long:Long:Long  = 0\n",
+            format!("{}", DisplayContext::default().as_display(&longaccount)),
         );
 
         let ctx = DisplayContext {
